@@ -37,6 +37,32 @@ type strer struct{ s string }
 
 func (s strer) String() string { return s.s }
 
+// ptrStrer is a pointer-typed Stringer whose String method is safe on a nil receiver (like
+// *time.Location, *big.Int or *url.URL): a nil pointer of it still prints something.
+type ptrStrer struct{ s string }
+
+const nilStrerText = "<nil *ptrStrer>"
+
+func (p *ptrStrer) String() string {
+	if p == nil {
+		return nilStrerText
+	}
+	return p.s
+}
+
+// mkStringer builds the Stringer a Val of type stringer stands for.
+func mkStringer(v Val) fmt.Stringer {
+	switch {
+	case v.Nil:
+		return nil
+	case v.EK == "nilsafe":
+		return (*ptrStrer)(nil)
+	case v.EK == "ptr":
+		return &ptrStrer{string(v.S)}
+	}
+	return strer{string(v.S)}
+}
+
 type ptrErr struct{ s string }
 
 func (p *ptrErr) Error() string {
@@ -236,11 +262,7 @@ func ApplyEvent(e *zerolog.Event, ops []Op) *zerolog.Event {
 		case "str":
 			e = e.Str(k, string(v.S))
 		case "stringer":
-			if v.Nil {
-				e = e.Stringer(k, nil)
-			} else {
-				e = e.Stringer(k, strer{string(v.S)})
-			}
+			e = e.Stringer(k, mkStringer(v))
 		case "bytes":
 			e = e.Bytes(k, bytesOf(v))
 		case "hex":
@@ -315,12 +337,7 @@ func ApplyEvent(e *zerolog.Event, ops []Op) *zerolog.Event {
 		case "strs":
 			e = e.Strs(k, mkSlice(v, func(x Val) string { return string(x.S) }))
 		case "stringers":
-			e = e.Stringers(k, mkSlice(v, func(x Val) fmt.Stringer {
-				if x.Nil {
-					return nil
-				}
-				return strer{string(x.S)}
-			}))
+			e = e.Stringers(k, mkSlice(v, mkStringer))
 		case "bools":
 			e = e.Bools(k, mkSlice(v, func(x Val) bool { return x.B }))
 		case "ints":
@@ -398,11 +415,7 @@ func ApplyContext(c zerolog.Context, ops []Op) zerolog.Context {
 		case "str":
 			c = c.Str(k, string(v.S))
 		case "stringer":
-			if v.Nil {
-				c = c.Stringer(k, nil)
-			} else {
-				c = c.Stringer(k, strer{string(v.S)})
-			}
+			c = c.Stringer(k, mkStringer(v))
 		case "bytes":
 			c = c.Bytes(k, bytesOf(v))
 		case "hex":
